@@ -3,6 +3,7 @@
     Record.add_protocluster / add_candidate_cluster / add_subregion / add_region,
     Record.clear_protoclusters / clear_candidate_clusters / clear_subregions / clear_regions,
     Record.create_regions (with the D7 repair: first/last sections are merged for as long as they overlap),
+    Record.add_region (with the D25 repair: the overlap rejection looks at every existing region),
     Region.__init__ / CandidateCluster.__init__ / CDSCollection.__init__ (location, checks, parent links),
     the `parent` setter of CDSCollection, get_*_number.
   One Lean function per Python function, same branch order; mutation through `self` becomes a
@@ -216,12 +217,22 @@ def cdsWithin (cds : List Loc) (loc : Loc) : List Nat :=
     | some c => locationContainsOther loc c
     | none => false
 
-/-- the scan of `add_region`: overlap rejection, then `region < existing` → insert before it -/
+/-- the rest of the scan of `add_region` once the insertion point is known: overlap rejection only -/
+def checkNoOverlap (region : Feat) : List Feat → E Unit
+  | [] => pure ()
+  | ex :: rest =>
+    if locationsOverlap region.loc ex.loc then throw "value-error"
+    else checkNoOverlap region rest
+
+/-- the scan of `add_region` (with the D25 repair: every existing region is checked for overlap):
+    overlap rejection, and the first existing region the new one is smaller than gives the index -/
 def regionIndex (region : Feat) : Nat → List Feat → E Nat
   | i, [] => pure i
   | i, ex :: rest => do
     if locationsOverlap region.loc ex.loc then throw "value-error"
-    if (← collectionLt region.loc ex.loc) then pure i
+    if (← collectionLt region.loc ex.loc) then do
+      checkNoOverlap region rest
+      pure i
     else regionIndex region (i + 1) rest
 
 /-- `Record.add_region(region)` -/
